@@ -25,6 +25,7 @@ CaseOK(c) ==
     [] c.kind = "re"   -> StringObsOK(c)
     [] c.kind = "matches" -> /\ c.obs = MatchesOp(c.ast, c.buf, [nocase |-> c.nocase, dotall |-> c.dotall, wide |-> FALSE])
                              /\ MatchesAsBuilt(c)
+    [] c.kind = "rescanerr" -> FALSE      \* a scan of a small buffer with a small expression must end with a verdict, not an error
     [] c.kind = "cond" -> c.obs = Verdict(c.ast, c.env)
     [] c.kind = "load" -> c.ret = LoadBytes(c.file, c.n)
     [] c.kind = "corrupt" -> CorruptOK(c.ret)
@@ -47,6 +48,7 @@ CaseOK(c) ==
 KnownCase(c) ==
   CASE c.kind = "re" -> IF StringObsOK_D14(c) THEN "D14" ELSE IF StringObsOK_D12(c) THEN "D12"
                         ELSE IF StringObsOK_D17(c) THEN "D17" ELSE IF StringObsOK_D40(c) THEN "D40" ELSE "none"
+    [] c.kind = "rescanerr" -> IF HasNullableCounted(c.ast) THEN "D40" ELSE "none"
     [] c.kind = "matches" -> IF MatchesOK_D40(c) /\ MatchesAsBuilt(c) THEN "D40" ELSE "none"
     [] c.kind = "cond" -> IF HasUndefQuant(c.ast, c.env, NoLoc) THEN "D15"
                         ELSE IF HasUndefRange(c.ast, c.env, NoLoc) THEN "D19" ELSE "none"
